@@ -180,7 +180,8 @@ def r2(ctx):
 def r3(ctx):
     rule = "C04.R3"
     ctx.rule(rule, "no-op narrowing: UperReader::read_whole_sub_slice must narrow the visible length with ScopedBitRead::set_len "
-                   "(argument derived from the sub-slice length) before it calls the content closure")
+                   "(argument derived from the sub-slice length) before it calls the content closure, and the new end is clamped by "
+                   "the end that was visible before (narrowing never widens)")
     P = ctx.program()
     try:
         b = P.one("asn1rs", "UperReader::<B>::read_whole_sub_slice")
